@@ -265,6 +265,7 @@ pub fn run_c02(ctx: &mut Ctx) {
             }
         }
     }
+    giant_misc(ctx, "C02");
 }
 
 // ================================================================================================
@@ -593,6 +594,138 @@ pub fn run_c03(ctx: &mut Ctx) {
                     }
                 }
             }
+        }
+    }
+    giant_misc(ctx, "C03");
+}
+
+// ================================================================================================
+// Giant arrays of zero-sized elements: real dimensions near usize::MAX, so that products and sums of
+// *in-range* coordinates approach the edge of usize. Addresses are meaningless for zero-sized types;
+// what is judged is: in-range accesses / valid requests return, out-of-range ones panic, sizes agree.
+
+fn giant_shapes() -> Vec<(usize, usize)> {
+    vec![((1usize << 32) + 1, (1usize << 32) - 1), ((1usize << 32) - 1, (1usize << 32) + 1), (3, usize::MAX / 3), (usize::MAX / 2, 2), (usize::MAX, 1), (1, usize::MAX)]
+}
+
+fn expect(ctx: &mut Ctx, op: &str, what: String, must_panic: bool, r: Result<bool, String>) -> bool {
+    ctx.count("calls", 1);
+    ctx.count("giant_zst_checks", 1);
+    match (must_panic, r) {
+        (true, Err(_)) => {
+            ctx.count("rejected", 1);
+            true
+        }
+        (false, Ok(true)) => true,
+        (false, Ok(false)) => {
+            ctx.violation(op, "giant:wrong-result", what);
+            false
+        }
+        (true, Ok(_)) => {
+            ctx.violation(op, "invalid-call-accepted", what);
+            false
+        }
+        (false, Err(m)) => {
+            ctx.violation(op, "valid-call-panicked", format!("{}: {}", what, m));
+            false
+        }
+    }
+}
+
+pub fn giant_misc(ctx: &mut Ctx, prop: &str) {
+    if ctx.scale != Scale::Native {
+        return;
+    }
+    for (c, r) in giant_shapes() {
+        if !ctx.case(|| format!("{} giant zero-sized array {}x{}", prop, c, r)) {
+            continue;
+        }
+        let mut a: TooDee<()> = TooDee::from_vec(c, r, vec![(); c * r]);
+        let mut ok = true;
+        let inr = [(0usize, 0usize), (c - 1, r - 1), (c - 1, 0), (0, r - 1), (c / 2, r / 2)];
+        let outr = [(c, r - 1), (c - 1, r), (c, r), (usize::MAX, usize::MAX), (0, usize::MAX), (usize::MAX, 0), (c.wrapping_mul(2), 0), (1, r.wrapping_add(usize::MAX / c.max(1)))];
+        match prop {
+            "C02" => {
+                for &(x, y) in &inr {
+                    ok &= expect(ctx, "index(coord)", format!("a[({},{})] on {}x{}", x, y, c, r), false, catches(|| { let _ = &a[(x, y)]; true }));
+                    ok &= expect(ctx, "index(row)", format!("a[{}] on {}x{}", y, c, r), false, catches(|| a[y].len() == c));
+                    ok &= expect(ctx, "col[i]", format!("a.col({})[{}] on {}x{}", x, y, c, r), false, catches(|| { let _ = &a.col(x)[y]; true }));
+                    ok &= expect(ctx, "index_mut(coord)", format!("a[({},{})] (mut) on {}x{}", x, y, c, r), false, catches(|| { a[(x, y)] = (); true }));
+                    ok &= expect(ctx, "view index", format!("view[({},{})] on {}x{}", x, y, c, r), false, catches(|| { let v = a.view((0, 0), (c, r)); let _ = &v[(x, y)]; v[y].len() == c }));
+                    ok &= expect(ctx, "view_mut index", format!("view_mut[({},{})] on {}x{}", x, y, c, r), false, catches(|| { let mut v = a.view_mut((0, 0), (c, r)); v[(x, y)] = (); v.col_mut(x).len() == r }));
+                }
+                for &(x, y) in &outr {
+                    if x < c && y < r {
+                        continue;
+                    }
+                    ok &= expect(ctx, "index(coord)", format!("a[({},{})] on {}x{}", x, y, c, r), true, catches(|| { let _ = &a[(x, y)]; true }));
+                    ok &= expect(ctx, "index_mut(coord)", format!("a[({},{})] (mut) on {}x{}", x, y, c, r), true, catches(|| { a[(x, y)] = (); true }));
+                    ok &= expect(ctx, "col[i]", format!("a.col({})[{}] on {}x{}", x, y, c, r), true, catches(|| { let _ = &a.col(x)[y]; true }));
+                    ok &= expect(ctx, "view index", format!("view[({},{})] on {}x{}", x, y, c, r), true, catches(|| { let v = a.view((0, 0), (c, r)); let _ = &v[(x, y)]; true }));
+                    ok &= expect(ctx, "view_mut index", format!("view_mut[({},{})] on {}x{}", x, y, c, r), true, catches(|| { let mut v = a.view_mut((0, 0), (c, r)); v[(x, y)] = (); true }));
+                    if y >= r {
+                        ok &= expect(ctx, "index(row)", format!("a[{}] on {}x{}", y, c, r), true, catches(|| a[y].len() == c));
+                    }
+                }
+            }
+            "C03" => {
+                let valid = [((0, 0), (c, r)), ((c - 1, r - 1), (c, r)), ((c / 2, r / 2), (c, r)), ((0, 0), (c - 1, r)), ((c, r), (c, r)), ((0, r), (c, r)), ((c / 3, 0), (c / 3, r))];
+                for &(s, e) in &valid {
+                    let (wc, wr) = (e.0 - s.0, e.1 - s.1);
+                    let want = if wc == 0 || wr == 0 { (0, 0) } else { (wc, wr) };
+                    ok &= expect(ctx, "view", format!("view({:?},{:?}) on {}x{}", s, e, c, r), false, catches(|| { let v = a.view(s, e); v.size() == want && v.rows().len() == want.1 }));
+                    ok &= expect(ctx, "view_mut", format!("view_mut({:?},{:?}) on {}x{}", s, e, c, r), false, catches(|| { let mut v = a.view_mut(s, e); v.size() == want && v.rows_mut().len() == want.1 }));
+                    ok &= expect(ctx, "view.view", format!("nested view of view({:?},{:?}) on {}x{}", s, e, c, r), false, catches(|| { let v = a.view(s, e); let w = v.view((0, 0), want); w.size() == want }));
+                }
+                let invalid = [((0, 0), (c + 0, r.wrapping_add(1))), ((0, 0), (c.wrapping_add(1), r)), ((1, 0), (0, r)), ((0, 0), (usize::MAX, usize::MAX)), ((c, r), (c.wrapping_add(1), r.wrapping_add(1)))];
+                for &(s, e) in &invalid {
+                    if s.0 <= e.0 && s.1 <= e.1 && e.0 <= c && e.1 <= r {
+                        continue;
+                    }
+                    ok &= expect(ctx, "view", format!("view({:?},{:?}) on {}x{}", s, e, c, r), true, catches(|| { let v = a.view(s, e); v.size() == (0, 0) }));
+                    ok &= expect(ctx, "view_mut", format!("view_mut({:?},{:?}) on {}x{}", s, e, c, r), true, catches(|| { let v = a.view_mut(s, e); v.size() == (0, 0) }));
+                }
+            }
+            "C13" => {
+                for &(x, y) in &inr {
+                    let (x2, y2) = (c - 1 - x, r - 1 - y);
+                    ok &= expect(ctx, "swap", format!("swap(({},{}),({},{})) on {}x{}", x, y, x2, y2, c, r), false, catches(|| { a.swap((x, y), (x2, y2)); true }));
+                    ok &= expect(ctx, "swap(view)", format!("view swap(({},{}),({},{})) on {}x{}", x, y, x2, y2, c, r), false, catches(|| { a.view_mut((0, 0), (c, r)).swap((x, y), (x2, y2)); true }));
+                    ok &= expect(ctx, "swap_rows", format!("swap_rows({},{}) on {}x{}", y, y2, c, r), false, catches(|| { a.swap_rows(y, y2); true }));
+                    ok &= expect(ctx, "swap_rows(view)", format!("view swap_rows({},{}) on {}x{}", y, y2, c, r), false, catches(|| { a.view_mut((0, 0), (c, r)).swap_rows(y, y2); true }));
+                    if y != y2 {
+                        ok &= expect(ctx, "row_pair_mut", format!("row_pair_mut({},{}) on {}x{}", y, y2, c, r), false, catches(|| { let (p, q) = a.row_pair_mut(y, y2); p.len() == c && q.len() == c }));
+                    }
+                }
+                for &(x, y) in &outr {
+                    if x < c && y < r {
+                        continue;
+                    }
+                    ok &= expect(ctx, "swap", format!("swap((0,0),({},{})) on {}x{}", x, y, c, r), true, catches(|| { a.swap((0, 0), (x, y)); true }));
+                    ok &= expect(ctx, "swap(view)", format!("view swap((0,0),({},{})) on {}x{}", x, y, c, r), true, catches(|| { a.view_mut((0, 0), (c, r)).swap((0, 0), (x, y)); true }));
+                    if y >= r {
+                        ok &= expect(ctx, "swap_rows", format!("swap_rows(0,{}) on {}x{}", y, c, r), true, catches(|| { a.swap_rows(0, y); true }));
+                        ok &= expect(ctx, "swap_rows(view)", format!("view swap_rows({},0) on {}x{}", y, c, r), true, catches(|| { a.view_mut((0, 0), (c, r)).swap_rows(y, 0); true }));
+                        ok &= expect(ctx, "row_pair_mut", format!("row_pair_mut(0,{}) on {}x{}", y, c, r), true, catches(|| { let (p, _q) = a.row_pair_mut(0, y); p.len() == c }));
+                    }
+                }
+            }
+            _ => {
+                // C20: constructors and conversions with giant dimensions
+                let total = c * r;
+                ok &= expect(ctx, "from_vec", format!("from_vec({},{},len {})", c, r, total), false, catches(|| { let b: TooDee<()> = TooDee::from_vec(c, r, vec![(); total]); b.size() == (c, r) && b.data().len() == total }));
+                ok &= expect(ctx, "from_vec", format!("from_vec({},{},len {})", c, r, total - 1), true, catches(|| { let b: TooDee<()> = TooDee::from_vec(c, r, vec![(); total - 1]); b.size() == (c, r) }));
+                ok &= expect(ctx, "from_vec", format!("from_vec({},{},len {}) (overflowing product)", c.wrapping_mul(2).max(2), r.max(2), total), true, catches(|| { let b: TooDee<()> = TooDee::from_vec(c.saturating_mul(2).max(2), r.saturating_mul(2).max(2), vec![(); total]); b.num_cols() > 0 }));
+                ok &= expect(ctx, "TooDeeView::new", format!("TooDeeView::new({},{}, slice of {})", c, r, total), false, catches(|| { let s = vec![(); total]; let v = TooDeeView::new(c, r, &s); v.size() == (c, r) && v.rows().len() == r }));
+                ok &= expect(ctx, "TooDeeView::new", format!("TooDeeView::new({},{}, slice of {})", c, r, total - 1), true, catches(|| { let s = vec![(); total - 1]; let v = TooDeeView::new(c, r, &s); v.size() == (c, r) }));
+                ok &= expect(ctx, "TooDeeViewMut::new", format!("TooDeeViewMut::new({},{}, slice of {})", c, r, total), false, catches(|| { let mut s = vec![(); total]; let v = TooDeeViewMut::new(c, r, &mut s); v.size() == (c, r) }));
+                ok &= expect(ctx, "Vec::from", format!("Vec::from({}x{})", c, r), false, catches(|| { let b: TooDee<()> = TooDee::from_vec(c, r, vec![(); total]); let v: Vec<()> = b.into(); v.len() == total }));
+                ok &= expect(ctx, "into_iter", format!("into_iter({}x{})", c, r), false, catches(|| { let b: TooDee<()> = TooDee::from_vec(c, r, vec![(); total]); b.into_iter().len() == total }));
+                ok &= expect(ctx, "eq", format!("{}x{} == {}x{} with the same cells", c, r, r, c), false, catches(|| { let b: TooDee<()> = TooDee::from_vec(r, c, vec![(); total]); (a == b) == (c == r) }));
+            }
+        }
+        if ok {
+            ctx.nontrivial((prop.to_string(), "giant", c, r));
         }
     }
 }
